@@ -315,12 +315,40 @@ def name_kinds(fn_node):
     return params, local - declared, declared
 
 
+IMMUTABLE_VALUE_CALLS = ('re.compile',)
+
+
+def benign_memo_cache(qualname, fn_node):
+    """name of the module-level dict a function uses as a memo cache in the recognised idiom (pyvc.models.memo_idiom: filled
+    on a miss, only by this function, with a value computed from the key alone) when that value is an immutable object made
+    by a deterministic library call (re.compile): such a cache cannot make a result depend on the call history.  Else None"""
+    from . import models
+    try:
+        m = models.memo_idiom(qualname, fn_node)
+    except Exception:       # noqa: BLE001
+        return None
+    if m is None:
+        return None
+    e = m.body[0].value
+    if isinstance(e, ast.Call) and ast.unparse(e.func) in IMMUTABLE_VALUE_CALLS:
+        # the name of the dict: the only non-parameter, non-builtin base stored to
+        bases = {w.base for w in writes_of(qualname, fn_node) if w.base}
+        params, local, _d = name_kinds(fn_node)
+        bases -= set(params) | set(local)
+        if len(bases) == 1:
+            return bases.pop()
+    return None
+
+
 def shared_state_writes(qualname, fn_node):
     """writes of a function that can reach state shared between calls: the base is neither a parameter nor a local
     of the function (i.e. a closure variable, a module global or a class name), or it is the `cls` parameter"""
     params, local, declared = name_kinds(fn_node)
     out = []
+    memo = benign_memo_cache(qualname, fn_node)
     for w in writes_of(qualname, fn_node):
+        if memo is not None and w.base == memo:
+            continue
         if w.kind in ('global-decl', 'nonlocal-decl'):
             out.append(w)
         elif w.base is None:
